@@ -477,7 +477,8 @@ def _merge_and_report(prop, tier, seed, results, wall, plan):
     for b in suppressed:
         failures.pop(b)
     violations, known_hits = [], []
-    os.makedirs(os.path.join(VERIF, "replays", prop), exist_ok=True)
+    OUT = os.environ.get("VERIF_OUTDIR", VERIF)  # sensitivity runs (DESIGN.md 9) keep their output out of /verif/evidence
+    os.makedirs(os.path.join(OUT, "replays", prop), exist_ok=True)
     for b in sorted(failures):
         lst = sorted(failures[b], key=lambda rec: len(canon(rec["case"])))
         k = known_match(known, b)
@@ -487,7 +488,7 @@ def _merge_and_report(prop, tier, seed, results, wall, plan):
         rec = lst[0]
         safe = "".join(c if c.isalnum() or c in "-_." else "_" for c in b)[:80]
         path = os.path.join("replays", prop, f"{safe}-{h64(rec['case'])[:8]}.json")
-        with open(os.path.join(VERIF, path), "w") as f:
+        with open(os.path.join(OUT, path), "w") as f:
             json.dump({"property": prop, "bucket": b, "what": rec["what"], "seed": seed, "tier": tier, "case": json.loads(canon(rec["case"]))}, f, indent=1, sort_keys=True)
         violations.append((b, path, rec["what"], fail_counts[b]))
 
@@ -522,8 +523,8 @@ def _merge_and_report(prop, tier, seed, results, wall, plan):
         "wall_s": round(wall, 2),
         "violations": len(violations),
     }
-    os.makedirs(os.path.join(VERIF, "evidence"), exist_ok=True)
-    with open(os.path.join(VERIF, "evidence", f"{prop}.json"), "w") as f:
+    os.makedirs(os.path.join(OUT, "evidence"), exist_ok=True)
+    with open(os.path.join(OUT, "evidence", f"{prop}.json"), "w") as f:
         json.dump(json.loads(canon(ev)), f, indent=1, sort_keys=True)
 
     for b, k, n in known_hits:
